@@ -54,24 +54,40 @@ def saturate(ctx, base, schemas, extra_terms=(), rounds=ROUNDS):
     # hypotheses without triggers are instantiated at the skolem constants / extra terms
     for s in schemas:
         if not s.triggers and s.nvars == 1:
-            for t in extra_terms:
+            for t in list(extra_terms) + list(getattr(ctx, "index_terms", [])):
                 saved = len(ctx.path)
                 inst = s.instantiate(t)
                 new = ctx.path[saved:]
                 del ctx.path[saved:]
                 facts.extend(new + [inst])
                 frontier.extend(new + [inst])
+    pair_done = set()
     for _ in range(rounds):
         before = {k: set(v) for k, v in apps.items()}
         collect_apps(frontier, decls_by_id, seen, apps)
         frontier = []
+        # pair schemas: every ordered pair of occurrences of the trigger function
+        for did, occ in apps.items():
+            for s in trig[did][1]:
+                if not getattr(s, "pair", False):
+                    continue
+                ids = list(occ)
+                if len(ids) > 14:
+                    ids = ids[:14]
+                for x in ids:
+                    for y in ids:
+                        if x == y or (id(s), x, y) in pair_done:
+                            continue
+                        pair_done.add((id(s), x, y))
+                        frontier.append(s.instantiate(occ[x][0], occ[y][0]))
+                        ninst += 1
         for did, occ in apps.items():
             for eid, argt in occ.items():
                 if eid in before.get(did, ()):
                     continue
                 for s in trig[did][1]:
                     key = (id(s), eid)
-                    if key in done or len(argt) != s.nvars:
+                    if key in done or len(argt) != s.nvars or getattr(s, "pair", False):
                         continue
                     done.add(key)
                     saved = len(ctx.path)
